@@ -25,4 +25,51 @@ META = {
         ],
         "components": {"real": REAL_CLIENT, "stub": STUB_CLIENT},
     },
+    "C08": {
+        "level": "fault_enumeration",
+        "budget": {"quick": 35, "thorough": 600},
+        "rule": ("each run = one real client (tcp / rtu-over-network / serial) x one request (10 functions) x one fault kind from "
+                 "{stall, EOF, I/O error, oversize, write error, short write, cancel before / right after the write / at time t, "
+                 "context deadline, not connected, nil request, failing Flush} placed after a tape-chosen strict prefix of the reply "
+                 "(every prefix length reachable; 0, len-1 and len-1..4 over-weighted), the prefix itself cut into reads with gaps; "
+                 "(fault kind x client kind x function) is stratified so every combination is run; read timeout 5 ms-2 s. "
+                 "A fault counts as fired only when the transport actually returned it to the client (or, for cancellation, the call "
+                 "outlived it by more than one blocking-read period). distinct = distinct fingerprint of the transport-call outcome sequence; "
+                 "every run is non-trivial (it contains a fault)."),
+        "assumptions": [
+            "the serial port honours a finite read timeout (<= 100 ms simulated)",
+            "bounded time is checked as writeTimeout + readTimeout + 1 s (+30 ms settle sleep + one port timeout for the serial client) of simulated time",
+            "cancel and timeout instants are generated at least one blocking-read period apart, because the client polls both with one select and Go picks at random when both are ready (that choice is not a tape decision)",
+            "a call that consumed exactly one complete valid reply before the fault became observable may succeed",
+            "sampling, not proof",
+        ],
+        "components": {"real": REAL_CLIENT, "stub": STUB_CLIENT},
+    },
+    "C12": {
+        "level": "fault_enumeration",
+        "budget": {"quick": 30, "thorough": 600},
+        "rule": ("each run = RTU network client or serial client x one request (10 functions, small replies over-weighted) x a valid RTU reply "
+                 "(normal or exception) x one corruption {single bit flip, byte substitution, 2-4 byte burst, truncation at any length, "
+                 "extension by 1-6 bytes, duplicated segment, function-code high-bit flip} at a tape-chosen position x any fragmentation "
+                 "(a cut after byte 5 over-weighted: that is where the early exception shortcut looks); (client x function x corruption kind) stratified. "
+                 "Corruptions that leave the frame CRC-consistent are skipped (outside the premise). The oracle is stated on what the client consumed: "
+                 "if Do returned a response or an error that unwraps to *packet.ErrorResponseRTU, the consumed bytes must be CRC-consistent per the reference CRC. "
+                 "distinct = distinct transport-outcome fingerprint; every executed run is non-trivial (it contains a corruption)."),
+        "assumptions": ["reference CRC-16 is the bitwise definition (poly 0xA001, init 0xFFFF), independent of packet.CRC16",
+                        "the serial port honours a finite read timeout", "sampling, not proof"],
+        "components": {"real": REAL_CLIENT, "stub": STUB_CLIENT},
+    },
+    "C19": {
+        "level": "exploration",
+        "budget": {"quick": 30, "thorough": 600},
+        "rule": ("each run = a C07-style scenario (fragmented well-formed reply) or a C08-style scenario (terminal fault after a prefix), executed twice from the "
+                 "same tapes: with recording hooks and without. Network clients are built with modbus.NewClient and wrapped ParseResponseFunc so that "
+                 "parser invocations are observed; the serial client is built with NewSerialClient/WithSerialHooks. Checked: BeforeWrite argument == encoded "
+                 "request == bytes the transport received; AfterEachRead calls == the transport's own record of every Read, element for element (window length, "
+                 "bytes, n, error identity); BeforeParse exactly once, last, with the concatenation, iff the parser ran; result, transport call sequence and "
+                 "elapsed simulated time identical with and without hooks. non-trivial = at least 2 transport reads; distinct = distinct fingerprint."),
+        "assumptions": ["parser invocations of the serial client cannot be observed (no seam): there only 'success implies BeforeParse ran once' is checked",
+                        "later reuse of a window already handed to a hook is not checked (the statement does not require it)", "sampling, not proof"],
+        "components": {"real": REAL_CLIENT, "stub": STUB_CLIENT},
+    },
 }
